@@ -45,6 +45,17 @@ CLAIMS = {
    note=NOTE + "C18: outcomes assumed to depend on inputs only through shapes/negativity/renderer class; float32 storage checked by the oracle bit-for-bit, not modelled; warnings not modelled.",
    technique="Lean 4 decision-logic theorems over all shapes + regenerated structural facts as proof obligations + constructor-outcome correspondence",
    design="7/C18"),
+ "C19": dict(
+   text=("Proof, full over the name grammar: the wrap is proved over ℝ to land in [0,π) and to be congruent modulo π for every real "
+         "sample; the name tests of _parse_injested_data are *translated* from the source into a Lean NameTest and it is proved, for every "
+         "parameter of the regenerated tables with any suffix made of trigger-free segments (source index, band name, both — unbounded), "
+         "that exactly the position angles (theta…, theta…_at_wv) are wrapped, that poly_coeff / bspl_w link variables pass through, that "
+         "every name containing base/auto/unwrapped is removed, and that the model image is removed but kept in .models. Key lemma: an "
+         "underscore-free pattern cannot straddle an underscore of a joined name. Tie: the real routine on an xarray stand-in, per-variable "
+         "fate and wrapped values compared with the model; oracle with ground-truth kinds."),
+   note=NOTE + "C19: xarray stand-in for the inference-data container; suffix segments assumed trigger-free (examples show what a band called 'theta' does); float rounding of remainder observed only.",
+   technique="Lean 4 theorems (real-analysis wrap + string/segment lemmas over all suffixes) on name tests translated from source + fate correspondence",
+   design="7/C19"),
 }
 
 checks, na = [], []
